@@ -869,3 +869,68 @@ mod tests {
         assert_eq!(board.fullmove_number(), u16::MAX);
     }
 }
+
+#[cfg(cozy_chess_verif)]
+impl Board {
+    /// Verification hook: assemble a `Board` from raw field values without validation.
+    #[allow(clippy::too_many_arguments)]
+    pub fn verif_from_raw(
+        pieces: [u64; Piece::NUM],
+        colors: [u64; Color::NUM],
+        side_to_move: Color,
+        castle_rights: [CastleRights; Color::NUM],
+        en_passant: Option<File>,
+        hash: u64,
+        pinned: u64,
+        checkers: u64,
+        halfmove_clock: u8,
+        fullmove_number: u16
+    ) -> Self {
+        Self {
+            inner: ZobristBoard::verif_from_raw(
+                pieces, colors, side_to_move, castle_rights, en_passant, hash
+            ),
+            pinned: BitBoard(pinned),
+            checkers: BitBoard(checkers),
+            halfmove_clock,
+            fullmove_number
+        }
+    }
+
+    /// Verification hook: run one of the validators.
+    pub fn verif_validator(&self, which: u8) -> bool {
+        match which {
+            0 => self.board_is_valid(),
+            1 => self.checkers_and_pins_are_valid(),
+            2 => self.castle_rights_are_valid(),
+            3 => self.en_passant_is_valid(),
+            4 => self.halfmove_clock_is_valid(),
+            _ => self.fullmove_number_is_valid()
+        }
+    }
+
+    /// Verification hook: `calculate_checkers_and_pins`.
+    pub fn verif_calculate_checkers_and_pins(&self, color: Color) -> (BitBoard, BitBoard) {
+        self.calculate_checkers_and_pins(color)
+    }
+
+    /// Verification hook: `ZobristBoard::xor_square`.
+    pub fn verif_xor_square(&mut self, piece: Piece, color: Color, square: Square) {
+        self.inner.xor_square(piece, color, square);
+    }
+
+    /// Verification hook: `ZobristBoard::set_castle_right`.
+    pub fn verif_set_castle_right(&mut self, color: Color, short: bool, file: Option<File>) {
+        self.inner.set_castle_right(color, short, file);
+    }
+
+    /// Verification hook: `ZobristBoard::set_en_passant`.
+    pub fn verif_set_en_passant(&mut self, en_passant: Option<File>) {
+        self.inner.set_en_passant(en_passant);
+    }
+
+    /// Verification hook: `ZobristBoard::toggle_side_to_move`.
+    pub fn verif_toggle_side_to_move(&mut self) {
+        self.inner.toggle_side_to_move();
+    }
+}
